@@ -54,6 +54,20 @@ def gen_U(rng):
     return C.dyadic(rng, u, u, 24)
 
 
+
+def pregen(ctx):
+    """regenerate coq/Generated/RoughnessSrc.v from the CURRENT wavephysics/roughness.py (fail-closed translator);
+    Proofs/RoughnessGen.v proves the regenerated Charnock relation, Wu's first guess and the drag coefficient equal
+    to the model's, so a changed formula breaks a proof obligation of Properties/C10.v"""
+    import os, sys
+    sys.path.insert(0, os.path.join(C.VERIF, "harness"))
+    import translate_pointwise as TP
+    TP.generate(os.path.join(C.REPO, "src", "ocean_science_utilities", "wavephysics", "roughness.py"),
+                ["kwargs:drag_coefficient_wu", "kwargs:roughness_wu", "kwargs:charnock_roughness_length",
+                 "kwargs:drag_coefficient"],
+                os.path.join(C.COQ, "Generated", "RoughnessSrc.v"), "wavephysics/roughness.py")
+
+
 def run(ctx):
     rng = ctx.rng
     cases = []
